@@ -535,10 +535,32 @@ impl Session {
         }
     }
 
-    fn get_msg_ctr(&mut self) -> u32 {
+    fn get_msg_ctr(&mut self) -> Result<u32, Error> {
         let ctr = self.msg_ctr;
-        self.msg_ctr += 1;
-        ctr
+
+        if self.is_encrypted() {
+            // The counter of a secure session is the nonce of its messages, so it
+            // must never come round to a value used before under the same keys.
+            // Once the range is used up the session refuses to send and is marked
+            // as expired, so that it is replaced by a new one (with new keys).
+            let Some(next) = ctr.checked_add(1) else {
+                warn!(
+                    "Session {}: Message counter exhausted; marking the session as expired",
+                    self.id
+                );
+
+                self.expired = true;
+
+                return Err(ErrorCode::NoSession.into());
+            };
+
+            self.msg_ctr = next;
+        } else {
+            // Unsecured sessions are allowed to roll over
+            self.msg_ctr = ctr.wrapping_add(1);
+        }
+
+        Ok(ctr)
     }
 
     pub fn get_dec_key(&self) -> Option<CanonAeadKeyRef<'_>> {
@@ -830,7 +852,7 @@ impl Session {
                 Err(ErrorCode::InvalidState)?
             }
         } else {
-            self.get_msg_ctr()
+            self.get_msg_ctr()?
         };
 
         // Include the Source Node ID for:
@@ -2520,6 +2542,36 @@ mod tests {
     /// Stand-in `BasicInfoConfig` for tests that don't care about the
     /// peer-MRP defaults — `Sessions::add` only reads `sai`/`sii` from it.
     const TEST_DEV_DET: BasicInfoConfig<'static> = BasicInfoConfig::new();
+
+    /// The message counter of a secure session is its AEAD nonce: at the end of the
+    /// 32-bit range the session must refuse to send rather than wrap to 0 (release
+    /// profile, `overflow-checks = false`) or abort (debug profile).
+    #[test]
+    fn c15_secure_session_counter_does_not_wrap() {
+        let mut sm = Sessions::new();
+        let sess = unwrap!(sm.add(0, false, Address::default(), None, &TEST_DEV_DET));
+        sess.mode = SessionMode::Case {
+            fab_idx: unwrap!(NonZeroU8::new(1)),
+            cat_ids: Default::default(),
+        };
+        sess.msg_ctr = u32::MAX - 2;
+        let mut seen = heapless::Vec::<u32, 8>::new();
+        let mut refused = 0;
+        for _ in 0..6 {
+            let mut hdr = PacketHdr::new();
+            match sess.pre_send(None, &mut hdr, None, None) {
+                Ok(_) => unwrap!(seen.push(hdr.plain.ctr)),
+                Err(_) => refused += 1,
+            }
+        }
+        assert!(
+            seen.windows(2).all(|w| w[0] < w[1]),
+            "message counters of a secure session went {:?}: a nonce is used again under the same key",
+            seen
+        );
+        assert!(refused > 0, "the session kept sending past the end of its counter range");
+        assert!(sess.is_expired(), "an exhausted session must be marked for replacement");
+    }
 
     #[test]
     fn test_next_sess_id_doesnt_reuse() {
